@@ -97,9 +97,18 @@ def run(chk):
     N = 400 if chk.quick else 6000
     lines, meta = [], []
     for c in core.load_corpus("C04"):
-        t = [tuple(Fraction(v) for v in row) for row in c["table"]]
-        lines.append("rebin %s %s %s %s" % (c["binby"], c["kind"], c["value"], " ".join(rat(v) for row in t for v in row)))
-        meta.append((t, c["binby"], c["kind"], Fraction(c["value"]) if c["kind"] == "w" else int(c["value"])))
+        # corpus cases are float tables (decimal widths: the F5 shape); only the clauses on the implementation apply —
+        # the exact model differs from float edge construction by design (DESIGN.md section 3)
+        rows = [tuple(float(Fraction(v)) for v in row) for row in c["table"]]
+        wv = float(Fraction(c["value"]))
+        inp = dict(table=[list(r) for r in rows], binby=c["binby"], kind=c["kind"], value=wv)
+        chk.count("corpus")
+        try:
+            out = rebin(np.array(rows), binby=c["binby"], **({"w": wv} if c["kind"] == "w" else {"n": int(wv)}))
+            out = [[None if np.isnan(v) else float(v) for v in row] for row in out]
+            conservation_oracles(chk, rows, c["binby"], (c["kind"], wv), out, inp)
+        except Exception as e:
+            chk.fail("rebin must not raise on a valid table", inp, "table", type(e).__name__, clause="raise")
     for _ in range(N):
         t = gen_table(rng)
         binby = rng.choice(["range", "mean"])
